@@ -65,7 +65,8 @@ def run_part(name, argv, tier, seed, env=None, timeout=7200, cwd=None):
         rep = json.load(f)
     if rep.get("machinery_errors"):
         raise MachineryError("part %s: %s" % (name, "; ".join(rep["machinery_errors"][:5])))
-    log("part %s: %.1fs states=%s transitions=%s violations=%s" % (name, time.time() - t0, rep.get("states"), rep.get("transitions"), rep.get("violation_total")))
+    if os.environ.get("VERIF_VERBOSE") or not name[-3:-2] == "s" or name.endswith("s00"):
+        log("part %s: %.1fs states=%s transitions=%s violations=%s" % (name, time.time() - t0, rep.get("states"), rep.get("transitions"), rep.get("violation_total")))
     return rep
 
 
@@ -129,9 +130,12 @@ def finish(prop, tier, seed, merged, t0, level_note, assumptions, technique):
         path = os.path.join(ROOT, "replays", "%s-%s.json" % (prop, h))
         with open(path, "w") as f:
             json.dump({"property": prop, "sig": sig, "desc": v["desc"], "cases_this_run": merged["sig_counts"][sig], "replay": v["replay"]}, f, indent=1)
-        print("VIOLATION property=%s replay=%s" % (prop, path))
-        print("  %s" % v["desc"][:600])
+        if n < 6:
+            print("VIOLATION property=%s replay=%s" % (prop, path))
+            print("  %s" % v["desc"][:500])
         n += 1
+    if n > 6:
+        print("(+%d more distinct violation signatures; replay files under %s)" % (n - 6, os.path.join(ROOT, "replays")))
     samples = merged["samples"][:8] or [{"note": "no sample recorded"}]
     cov = {
         "states": max(merged["states"], 0),
